@@ -99,6 +99,7 @@ class TLCResult:
         self.ok = False          # "No error has been found"
         self.rejected_at = None  # REJECTED_AT_LINE n
         self.rejected_event = None
+        self.broken = {}         # line -> clause name printed by the trace spec
         self.error_text = ""
         self.wall = 0.0
         self.scn = 0
@@ -190,6 +191,9 @@ def run_tlc(module, cfg, workers=None, scn_out=None, env=None, simulate=None, de
                     res.depth = int(m.group(1))
                 if "No error has been found" in line:
                     res.ok = True
+                m = re.match(r'<<"BROKEN", (\d+), "([^"]*)">>', line)
+                if m:
+                    res.broken[int(m.group(1))] = m.group(2)
                 m = re.match(r'<<"REJECTED_AT_LINE", (\d+)>>', line)
                 if m:
                     res.rejected_at = int(m.group(1))
@@ -205,7 +209,12 @@ def run_tlc(module, cfg, workers=None, scn_out=None, env=None, simulate=None, de
             out_f.close()
         shutil.rmtree(meta, ignore_errors=True)
     res.wall = time.time() - t0
-    res.output_tail = "".join(tail[-80:])
+    log("TLC %s/%s: %d generated, %d distinct, %d SCN, %.1fs%s" % (module, cfg, res.generated, res.distinct, res.scn, res.wall,
+                                                              "" if res.ok else " (not ok)"))
+    joined = "".join(tail)
+    k = joined.rfind("Starting... (")
+    res.output_tail = joined[k:] if k >= 0 else "".join(tail[-80:])
+    res.output_tail = res.output_tail[-6000:]
     if p.returncode is not None and p.returncode < 0:
         raise Inconclusive("TLC killed (timeout %ds) on %s/%s" % (timeout, module, cfg))
     if not res.ok and res.rejected_at is None:
@@ -231,6 +240,7 @@ class ReplayOutcome:
         self.crashes = []    # (index, text)
         self.timeouts = []   # index
         self.errors = []     # (index, text)
+        self.side = []       # side-channel documents ("O" lines), as JSON text
 
 
 def _run_child(binary, engine, infile, shard, nshards, after, only, timeout, env, rlimit_as, extra, cb):
@@ -272,6 +282,8 @@ def _run_child(binary, engine, infile, shard, nshards, after, only, timeout, env
         elif tag == "T":
             cb("T", int(rest), "")
             inflight = None
+        elif tag == "O":
+            cb("O", -1, rest)
     p.wait()
     th.join(2)
     shutil.rmtree(cdir, ignore_errors=True)
@@ -279,16 +291,24 @@ def _run_child(binary, engine, infile, shard, nshards, after, only, timeout, env
 
 
 def replay(engine, infile, nshards=None, timeout=30, env=None, rlimit_as=None, race=False, extra=None,
-           crash_is_violation=True):
+           crash_is_violation=True, side_path=None):
     """Feeds every scenario of infile to `wconf replay <engine>` children.  A child that
     dies is attributed to the scenario in flight; the shard is restarted after it."""
     binary = build_harness(race=race)
     nshards = nshards or NCPU
+    t_start = time.time()
     out = ReplayOutcome()
     lock = threading.Lock()
+    side_out = open(side_path, "w") if side_path else None
 
     def cb(tag, idx, payload):
         with lock:
+            if tag == "O":
+                if side_out is not None:
+                    side_out.write(payload + "\n")
+                else:
+                    out.side.append(payload)
+                return
             out.total += 1
             if tag == "K":
                 out.passed += 1
@@ -347,6 +367,10 @@ def replay(engine, infile, nshards=None, timeout=30, env=None, rlimit_as=None, r
                 out.total -= 0
                 cb(tag, i, payload)
     out.timeouts = confirmed
+    log("replay %s: %d scenarios, %d ok, %d failed, %d crashed, %d timed out, %.1fs" %
+        (engine, out.total, out.passed, len(out.failures), len(out.crashes), len(out.timeouts), time.time() - t_start))
+    if side_out:
+        side_out.close()
     return out
 
 
@@ -431,6 +455,7 @@ def validate_traces(module, cfg, trace_path, timeout=1800, heap=None, max_reject
             raise Inconclusive("rejected line %s outside every trace" % res.rejected_at)
         first, lines = remaining[hit]
         rejections.append({"trace_first_line": first, "line_in_trace": res.rejected_at - offsets[hit][0] + 1,
+                           "clause": res.broken.get(res.rejected_at, ""),
                            "event": lines[res.rejected_at - offsets[hit][0]].strip(), "trace": lines})
         remaining = remaining[:hit] + remaining[hit + 1:]
         if len(rejections) >= max_rejections:
